@@ -71,7 +71,12 @@ pub fn one_run(prop: &str, verif_seed: u64, index: u64, trace_mode: bool, raw_di
     };
     let out = if trace_mode { exec::run_trace(&trace, prop, Some(&mut hb)) } else { exec::run_trace(&trace, prop, None) };
     let mut raw = None;
-    if out.findings.iter().any(|f| !f.code.starts_with("KF-")) || out.findings.iter().any(|f| f.code.starts_with("KF-")) {
+    // Keep the trace of every run with a real finding; of runs that only met listed-finding
+    // forms (KF-) keep the first few per worker process (they can be nearly every run).
+    static KF_RAW: std::sync::atomic::AtomicUsize = std::sync::atomic::AtomicUsize::new(0);
+    let real = out.findings.iter().any(|f| !f.code.starts_with("KF-"));
+    let keep_kf = !real && !out.findings.is_empty() && KF_RAW.fetch_add(1, std::sync::atomic::Ordering::Relaxed) < 40;
+    if real || keep_kf {
         // keep the trace so that the orchestrator can shrink / classify it
         let first = out.findings[0].clone();
         let rf = trace::ReplayFile {
